@@ -384,3 +384,11 @@ package vm
 //@   verify
 //@   safety [C03]
 //@ end
+
+//@ func (*vm.Tracer).SaveStateKey
+//@   verify
+//@   safety [C03]
+//@   requires recv: t != nil && t.states != nil && self != nil
+//@   ensures work-bounded [C20]: work <= old(work) + uint64(len(index)) + 72
+//@   modifies map:map[common.Address]map[uint256.Int]map[uint8]map[common.Hash]*vm.StorageKey, map:map[uint256.Int]map[uint8]map[common.Hash]*vm.StorageKey, map:map[uint8]map[common.Hash]*vm.StorageKey, map:map[common.Hash]*vm.StorageKey, map:map[string]*vm.StorageKey, map:map[uint256.Int]map[uint8]*vm.StorageKey, map:map[uint8]*vm.StorageKey, map:map[common.Address]*vm.StorageKey
+//@ end
